@@ -1156,7 +1156,30 @@ class C09Oracle(Oracle):
 
 
 class C10Oracle(Oracle):
-    owns_atomicity = False
+    # no hand-over on refusals: after enable_features(recompute=False) stored values may be stale
+    # by the caller's choice, and the roll-back of a refused edit legitimately re-measures them
+    owns_atomicity = True
+    extra_ops = {"enable_norecompute": 1.5}
+
+    def gen_extra(self, kind, rnd):
+        from .world import _gen_toggle
+
+        op = _gen_toggle(self.w, rnd, "enable", False)
+        if not op["keys"]:
+            return None
+        return {"op": "enable_norecompute", "keys": op["keys"]}
+
+    def apply_extra(self, op, out):
+        # "assume the values already exist": registers and activates, computes nothing; the values
+        # of keys that were off may be stale until the next enable *with* recomputation
+        with warnings.catch_warnings():
+            warnings.simplefilter("ignore")
+            self.w.tracks.enable_features(list(op["keys"]), recompute=False)
+        for k in op["keys"]:
+            if k not in self.model:
+                self.unverified.add(k)
+        self.model |= set(op["keys"])
+        self.col.event("enable_without_recompute")
 
     def start(self):
         tr = self.w.tracks
@@ -1164,6 +1187,7 @@ class C10Oracle(Oracle):
         self.static = set(tr.features.keys()) - self.managed
         self.model = set(tr.annotators.features.keys())
         self.since: dict[str, int] = {}
+        self.unverified: set[str] = set()  # enabled with recompute=False: values not (yet) asserted
         self._check_registry("construction")
         self._frozen = None
 
@@ -1181,6 +1205,7 @@ class C10Oracle(Oracle):
 
     def _values_ok(self, keys, where) -> bool:
         w = self.w
+        keys = [k for k in keys if k not in self.unverified]
         if w.tracks.segmentation is not None:
             nk = [k for k in keys if k in REGION_KEYS or k == w.pos_key]
             m = node_feature_mismatch(w, nk)
@@ -1221,6 +1246,9 @@ class C10Oracle(Oracle):
                 return
             elif kind == "enable":
                 stale = [k for k in op["keys"] if self.since.get(k, 0) > 0]
+                if self.unverified & set(op["keys"]):
+                    self.col.event("recompute_after_enable_without_recompute")
+                self.unverified -= set(op["keys"])  # recomputation makes every value current again
                 self.model |= set(op["keys"])
                 if not self._check_registry(where) or not self._values_ok(op["keys"], where):
                     return
@@ -1233,6 +1261,7 @@ class C10Oracle(Oracle):
                     self.since[k] = 0
             else:
                 self.model -= set(op["keys"])
+                self.unverified -= set(op["keys"])
                 self.col.event("disable")
             self._check_registry(where)
             return
@@ -1352,7 +1381,7 @@ class C16Oracle(Oracle):
         ok, r = _safe(lambda: self._run(name, op, tmp))
         shutil.rmtree(tmp, ignore_errors=True)
         after = C.full_snapshot(tr)
-        d = C.full_diff(before, after)
+        d = C.full_diff(before, after, strict_lookups=True)  # a query must not even add an empty entry
         scale_tag = "scale=None" if before["scale"] is None else "scale=given"
         self.col.event(f"ro:{name}:{'ok' if ok else 'raised'}")
         if not ok:
@@ -1391,7 +1420,7 @@ class C16Oracle(Oracle):
         elif name == "deprecated_export_tracks":
             tr.export_tracks(tmp / "d.csv")
         elif name == "queries_track":
-            for tid in {op["tid"], *self.w.track_ids()[:3]}:
+            for tid in {op["tid"], int(tr.get_next_track_id()), *self.w.track_ids()[:3]}:
                 tr.get_track_neighbors(tid, op["t"])
                 tr.has_track_id_at_time(tid, op["t"])
             tr.get_next_track_id()
